@@ -166,17 +166,22 @@ Definition parse_unigen (f : file) : option (list clause * list Z * Z) :=
   | Some its => Some (items_clauses its, sort_uniq (items_inds its), items_nv its 0)
   end.
 
-(** What [call_unigen_python] / [call_cmsgen_python] hand to the sampler:
-    [Some None] = no clauses, the function returns "" without sampling;
-    otherwise the clauses and the sampling set (all declared variables when the
-    file has no [c ind] line). *)
-Definition sampler_input (f : file) : option (option (list clause * list Z)) :=
+(** What [call_unigen_python] hands to the sampler.  [solve] stands for the
+    pycryptosat satisfiability pre-check (the solver itself is not modelled).
+    [Some None] = the function returns "" without sampling (no clauses, or the
+    pre-check says unsatisfiable); otherwise the clauses and the sampling set
+    (all declared variables when the file has no [c ind] line).
+    [call_cmsgen_python] has no pre-check: take [solve := fun _ => true]. *)
+Definition sampler_input (solve : list clause -> bool) (f : file)
+  : option (option (list clause * list Z)) :=
   match parse_unigen f with
   | None => None
   | Some (cls, ss, nv) =>
     match cls with
     | [] => Some None
-    | _ => Some (Some (cls, match ss with [] => support_set nv | _ => ss end))
+    | _ => if solve cls
+           then Some (Some (cls, match ss with [] => support_set nv | _ => ss end))
+           else Some None
     end
   end.
 
